@@ -805,7 +805,8 @@ class RefResolver(object):
                         raise LookupError(part)
                     part = int(part)
                 document = document[part]
-            except (TypeError, LookupError):
+            except (TypeError, LookupError, ValueError):
+                # ValueError: an index with more digits than ``int`` accepts
                 raise exceptions.RefResolutionError(
                     "Unresolvable JSON pointer: %r" % fragment
                 )
